@@ -96,6 +96,8 @@ fn path_class(p: &str) -> &'static str {
 
 pub struct Scope {
     pub trees: Vec<TreeSpec>,
+    /// trees that come with their own path list (index into `trees` -> paths)
+    pub special: std::collections::BTreeMap<usize, Vec<String>>,
     pub paths: Vec<String>,
     pub thorough: bool,
     pub chunk: usize,
@@ -106,7 +108,43 @@ pub fn scope(tier: &str) -> Scope {
     let mut trees = trees(thorough);
     for n in [39usize, 40, 41, 42] { trees.push(chain_tree(n)); }
     let paths = paths(if thorough { 3 } else { 2 }, thorough);
-    Scope { trees, paths, thorough, chunk: if thorough { 16 } else { 24 } }
+    let mut special = std::collections::BTreeMap::new();
+    for (t, ps) in special_trees(thorough) { special.insert(trees.len(), ps); trees.push(t); }
+    Scope { trees, special, paths, thorough, chunk: if thorough { 16 } else { 24 } }
+}
+
+/// Trees outside the {a,b,x} name alphabet, each with the paths that exercise it:
+/// (1) names that look like what the kernel appends to the path of an unlinked file (" (deleted)") - the emulated resolver
+///     verifies its position after every '..' by reading procfs path strings;
+/// (2) names made of control characters, backslashes, dots that are not '.'/'..', spaces, and a 255-byte name;
+/// (3) a tree four levels deep with climbing links at depth (every path of <= 4 components over {a,b,..});
+/// (4) nested link bodies with pending components on several levels of the symlink stack.
+pub fn special_trees(thorough: bool) -> Vec<(TreeSpec, Vec<String>)> {
+    let mut v = Vec::new();
+    let s = |l: &[&str]| l.iter().map(|x| x.to_string()).collect::<Vec<String>>();
+    v.push((TreeSpec::default().dir("d (deleted)").dir("d (deleted)/s").file("d (deleted)/s/f").link("l", "d (deleted)/s/..").link("m", "/d (deleted)").dir(" (deleted)").file("f (deleted)").dir("e").link("e/u", "../d (deleted)/s"),
+        s(&["d (deleted)", "d (deleted)/s/..", "d (deleted)/s/../..", "d (deleted)/s/../s/f", "l", "l/s", "l/s/..", "m/s/..", "m/s/../..", " (deleted)/..", " (deleted)/../f (deleted)", "f (deleted)", "f (deleted)/", "d (deleted)/../f (deleted)",
+            "l/../ (deleted)", "e/u/..", "e/u/../..", "e/u/f", "e/../d (deleted)/s/../../e/u", "d (deleted)/s/f/..", "d (deleted)//s//..//"])));
+    let long = "n".repeat(255);
+    v.push((TreeSpec::default().dir("n\nl").dir("n\nl/s").dir("\\").file("\\/f").dir("...").dir(".../..a").dir("a b").file("a b/ ").dir(&long).file(&format!("{}/f", long)).link("k", "n\nl/s/../../.../..a").link("j", &format!("{}/../a b", long)).dir("\u{7f}").dir("-").link("%s", "/-/../\\/f"),
+        s(&["n\nl/..", "n\nl/s/..", "n\nl/s/../..", "\\/f", "\\/..", ".../..", ".../..a", ".../..a/..", ".../..a/../..", "a b/ ", "a b/..", "a b/ /..", &format!("{}/..", long), &format!("{}/f", long), &format!("{}/../{}/f", long, long),
+            "k", "k/..", "k/../..", "j", "j/ ", "j/..", "\u{7f}/..", "-/..", "%s", "%s/..", "..a", "...", "... ", "n\nl/s/../s/../../k/.."])));
+    {
+        let t = TreeSpec::default().dir("a").dir("a/a").dir("a/a/a").dir("a/a/a/a").file("a/a/a/a/b").link("a/a/b", "../../b").link("a/a/a/b", "../../../a/a/b").dir("b").file("b/a").link("b/b", "/a/a/a").link("x", "a/a/a/..");
+        let sigma = ["a", "b", "..", "x"];
+        let mut seqs: Vec<Vec<&str>> = vec![vec![]];
+        let mut ps: Vec<String> = Vec::new();
+        for depth in 0..(if thorough { 5 } else { 4 }) {
+            let mut next = Vec::new();
+            for q in &seqs { for c in sigma { if c == "x" && !q.is_empty() { continue; } let mut t = q.clone(); t.push(c); next.push(t); } }
+            for q in &next { if depth >= 2 { ps.push(q.join("/")); if thorough { ps.push(format!("{}/", q.join("/"))); } } }
+            seqs = next;
+        }
+        v.push((t, ps));
+    }
+    v.push((TreeSpec::default().dir("a").dir("a/a").file("a/a/f").dir("b").link("l1", "l2/a").link("l2", "l3/../a").link("l3", "a/a/..").link("l4", "l1/f/").link("l5", "l1/../../l2/a/f").link("a/a/up", "../../l1").link("l6", "/l2/").link("l7", "l6/a/up/f"),
+        s(&["l1", "l1/f", "l1/..", "l1/../..", "l2", "l2/a/f", "l3", "l3/a", "l4", "l5", "l5/", "a/a/up", "a/a/up/f", "a/a/up/../a", "l6", "l6/a/f", "l7", "l7/", "l1/up/up/f", "l2/a/up/../up", "l3/../l3/../l1/f", "l4/..", "l5/.."])));
+    v
 }
 
 pub fn n_items(tier: &str) -> usize {
@@ -128,6 +166,7 @@ pub fn run_item(prop: &str, tier: &str, idx: usize, only: Option<&Value>) -> MRe
     let mut e = Wk::emulated()?;
     let root_out = out(ROOT_IN);
     let rootfd = open_path(&root_out)?;
+    std::fs::create_dir_all(out(&format!("{}/mroot", PARENT_IN))).map_err(|e| Mach(format!("mkdir mroot: {}", e)))?;
     let outside_before = snapshot_outside()?;
     let (lo, hi) = (idx * sc.chunk, ((idx + 1) * sc.chunk).min(sc.trees.len()));
     let mut seen_states: BTreeSet<u64> = BTreeSet::new();
@@ -146,7 +185,7 @@ pub fn run_item(prop: &str, tier: &str, idx: usize, only: Option<&Value>) -> MRe
         let is_chain = tree.0.len() > 30;
         let flagsets = open_flagsets(sc.thorough, has_fifo);
         let chain_paths: Vec<String> = vec!["l1".into(), "l2".into(), "l3".into(), "l1/".into(), "l2/.".into()];
-        let paths: &Vec<String> = if is_chain { &chain_paths } else { &sc.paths };
+        let paths: &Vec<String> = if let Some(sp) = sc.special.get(&ti) { sp } else if is_chain { &chain_paths } else { &sc.paths };
         let mut cases: Vec<LCase> = Vec::new();
         for p in paths {
             if let Some(o) = only { if o["path"].as_str() != Some(p.as_str()) { continue; } }
@@ -354,6 +393,92 @@ pub fn run_item(prop: &str, tier: &str, idx: usize, only: Option<&Value>) -> MRe
         let tgt = cs(&format!("{}/p", root_out));
         unsafe { libc::umount2(tgt.as_ptr(), libc::MNT_DETACH) };
         res.count("trees", 1);
+    }
+    // Root placements and mounts inside the tree (second item only). The three processes see the same inodes here, so the
+    // comparison is exact: the kernel's own in-root answer (object identity, link text, errno) for every case.
+    if idx == (if n_items(tier) > 1 { 1 } else { 0 }) && only.map(|o| o["tree_idx"].as_u64().map(|t| t >= 999_000 && t < 999_010).unwrap_or(false)).unwrap_or(true) {
+        let deep = special_trees(false).into_iter().nth(2).unwrap();
+        let s = |l: &[&str]| l.iter().map(|x| x.to_string()).collect::<Vec<String>>();
+        // (a) a tree that contains mount points: a tmpfs, a bind-mounted outside directory, a bind-mounted file
+        // (b) a root that is itself the root directory of a mounted filesystem
+        // (c) a root that is the caller's "/" (the jail root as the chrooted workers see it)
+        for (which, root_in) in [(0u64, ROOT_IN.to_string()), (1, format!("{}/mroot", PARENT_IN)), (2, "/".to_string())] {
+            if let Some(o) = only { if o["tree_idx"].as_u64() != Some(999_000 + which) { continue; } }
+            let root_out_w = if which == 2 { JAIL.to_string() } else { out(&root_in) };
+            let mut undo: Vec<String> = Vec::new();
+            let mount = |src: &str, tgt: &str, typ: Option<&str>, flags: libc::c_ulong| -> MResult<()> {
+                let (s_, t_) = (cs(src), cs(tgt)); let ty = typ.map(cs);
+                if unsafe { libc::mount(s_.as_ptr(), t_.as_ptr(), ty.as_ref().map(|c| c.as_ptr()).unwrap_or(std::ptr::null()), flags, std::ptr::null()) } != 0 { return mach(format!("mount {} on {}: errno {}", src, tgt, errno())); }
+                Ok(())
+            };
+            let (tree_text, paths): (String, Vec<String>) = match which {
+                0 => {
+                    clear_dir(&root_out_w)?;
+                    TreeSpec::default().dir("a").file("a/f").dir("m").dir("bs").file("bf").link("l", "m/a/..").link("l2", "bs/..").link("l3", "/m/up2/bf").build(&root_out_w)?;
+                    mount("tmpfs", &format!("{}/m", root_out_w), Some("tmpfs"), 0)?; undo.push(format!("{}/m", root_out_w));
+                    TreeSpec::default().dir("a").file("a/f").file("f").link("up", "..").link("up2", "../..").link("abs", "/a").link("self", "/m/a").build(&format!("{}/m", root_out_w))?;
+                    mount(&format!("{}/sibling", out(PARENT_IN)), &format!("{}/bs", root_out_w), None, libc::MS_BIND)?; undo.push(format!("{}/bs", root_out_w));
+                    mount(&format!("{}/secret", out(PARENT_IN)), &format!("{}/bf", root_out_w), None, libc::MS_BIND)?; undo.push(format!("{}/bf", root_out_w));
+                    ("a/ a/f m/=tmpfs{a/ a/f f up->.. up2->../.. abs->/a self->/m/a} bs/=bind(sibling) bf=bind(secret) l->m/a/.. l2->bs/.. l3->/m/up2/bf".into(),
+                     s(&["m", "m/..", "m/a/..", "m/a/../..", "m/a/../../..", "m/up", "m/up/a/f", "m/up2", "m/up2/a", "m/abs/f", "m/self/..", "m/self/../..", "m/self/../../a/f", "bs", "bs/..", "bs/secret", "bs/../a/f", "bs/../..", "bf", "bf/", "bf/..",
+                         "l", "l/..", "l/f", "l2", "l2/a/f", "l3", "m/../m/a/f", "m/a/../../bs/../m/up", "m/f/..", "bs/secret/..", "/m/../bs/../bf"]))
+                }
+                1 => {
+                    std::fs::create_dir_all(&root_out_w).map_err(|e| Mach(format!("mkdir mroot: {}", e)))?;
+                    mount("tmpfs", &root_out_w, Some("tmpfs"), 0)?; undo.push(root_out_w.clone());
+                    deep.0.build(&root_out_w)?;
+                    (format!("(root is a mount point) {}", deep.0.text()), deep.1.clone())
+                }
+                _ => {
+                    ("(root is the caller's /) jail root with decoys".into(),
+                     s(&["..", "../..", ".", "/", "a", "a/..", "a/../..", "a/a", "a/a/..", "b", "b/..", "secret", "w", "w/..", "w/../..", "w/outer/..", "w/outer/../..", "w/outer/parent/../../..", "w/outer/parent/root/..", "w/../a/../secret",
+                         "outside/..", "x/..", "nonexistent", "nonexistent/..", "/../a", "//", "a//..//..//b"]))
+                }
+            };
+            let rootfd_w = open_path(&root_out_w)?;
+            let mut cases: Vec<LCase> = Vec::new();
+            for p in &paths {
+                if let Some(o) = only { if o["path"].as_str() != Some(p.as_str()) { continue; } }
+                for mut c in lookup_ops(p, &[O_PATH, O_RDONLY | O_NONBLOCK, O_PATH | O_NOFOLLOW, O_RDONLY | O_DIRECTORY | O_NONBLOCK], &[0, RESOLVE_NO_SYMLINKS], false) { c.op.root = Some(root_in.clone()); cases.push(c); }
+            }
+            if let Some(o) = only { let want: Op = serde_json::from_value(o["op"].clone()).map_err(|e| Mach(format!("bad replay op: {}", e)))?; cases.retain(|c| c.op == want); }
+            let ops: Vec<Op> = cases.iter().map(|c| c.op.clone()).collect();
+            let mut ko = k.call(ops.clone())?;
+            let mut eo = e.call(ops)?;
+            for (i, c) in cases.iter().enumerate() {
+                let mut want = kernel_oracle(rootfd_w.as_raw_fd(), c);
+                res.evaluations += 2; res.nontrivial += 1;
+                let cmp = |w: &Want, g: &Want| if c.op.name == "open_subpath" { (w.clone(), g.clone()) } else { (strip_fl(w), strip_fl(g)) };
+                for (bk, obs_list, wk) in [("K", &mut ko, &mut k), ("E", &mut eo, &mut e)] {
+                    let mut got = got_of(&obs_list[i]);
+                    let mut tries = 0;
+                    while cmp(&want, &got).0 != cmp(&want, &got).1 && tries < 6 {
+                        // re-ask both sides: only a stable difference counts (15.1)
+                        obs_list[i] = wk.one(c.op.clone())?; got = got_of(&obs_list[i]); want = kernel_oracle(rootfd_w.as_raw_fd(), c); tries += 1;
+                        if !is_transient(&got) && !is_transient(&want) && tries >= 3 { break; }
+                    }
+                    let placement = ["mounts-in-tree", "root-is-mountpoint", "root-is-slash"][which as usize];
+                    res.outcome(format!("{}:{}:{}", placement, c.op.name, cls(&got)));
+                    let replay = json!({"engine": "lookup", "item": idx, "tree_idx": 999_000 + which, "tree": tree_text, "path": c.op.path, "op": c.op, "backend": bk});
+                    if obs_list[i].panic.is_some() { res.violate(format!("{}:{}:panic", bk, c.op.name), format!("panic ({}) {}: {:?}", placement, c.op.brief(), obs_list[i].panic), replay.clone()); continue; }
+                    let (cw, cg) = cmp(&want, &got);
+                    if prop == "C01" && cw != cg {
+                        res.violate(format!("{}:{}:{}:{}->{}", bk, c.op.name, placement, cls(&want), cls(&got)), format!("{} [{}] {} on backend {}: kernel in-root resolution gives {:?}, libpathrs gives {:?} ({})", placement, tree_text, c.op.brief(), bk, want, got, obs_list[i].msg.clone().unwrap_or_default()), replay.clone());
+                    }
+                }
+                if prop == "C04" {
+                    let (gk, ge) = (got_of(&ko[i]), got_of(&eo[i]));
+                    if gk != ge || ko[i].kind != eo[i].kind {
+                        let placement = ["mounts-in-tree", "root-is-mountpoint", "root-is-slash"][which as usize];
+                        res.violate(format!("lookup:{}:{}:K={}/{} E={}/{}", c.op.name, placement, short(&gk), ko[i].kind.clone().unwrap_or_default(), short(&ge), eo[i].kind.clone().unwrap_or_default()), format!("{} [{}] {}: kernel backend gives {:?} ({}), emulated backend gives {:?} ({})", placement, tree_text, c.op.brief(), gk, ko[i].msg.clone().unwrap_or_default(), ge, eo[i].msg.clone().unwrap_or_default()),
+                            json!({"engine": "lookup", "item": idx, "tree_idx": 999_000 + which, "path": c.op.path, "op": c.op}));
+                    }
+                }
+            }
+            drop(rootfd_w);
+            for m in undo.iter().rev() { let t = cs(m); unsafe { libc::umount2(t.as_ptr(), libc::MNT_DETACH) }; }
+            res.count("trees", 1);
+        }
     }
     res.states = seen_states.len() as u64;
     // nothing outside the root may have changed during a sweep of pure lookups
